@@ -286,6 +286,29 @@ func runC18(c *vf.Ctx) {
 		}
 	}
 
+	// --- ADTS headers with CRC (protection_absent = 0), written raw: header length 9, payload = frame length - 9
+	c.Parallel(len(tf)*8, func(i int) {
+		fi, ch := i/8, byte(i%8)
+		n := int64(0)
+		for pl := 0; pl <= 8182; pl++ {
+			fl := pl + 9
+			hdr := []byte{0xff, 0xf0, byte(1<<6 | fi<<2 | int(ch>>2)), byte(int(ch&3)<<6 | fl>>11), byte(fl >> 3), byte((fl&7)<<5 | 0x1f), 0xfc, 0x12, 0x34}
+			got, off, err := aac.DecodeADTSHeader(bytes.NewReader(append(hdr, 0, 0)))
+			x := c18ASC{Kind: "adts-crc", Obj: aac.AAClc, Freq: tf[fi], Ch: ch, PL: pl}
+			switch {
+			case err != nil:
+				c.Fail("adts-crc-decode-error", "an ADTS header with CRC decodes", map[string]interface{}{"case": x, "err": err.Error()})
+			case off != 0 || got.HeaderLength != 9 || int(got.PayloadLength) != pl || int(got.SamplingFrequencyIndex) != fi || got.ChannelConfig != ch || got.ObjectType != aac.AAClc:
+				c.Fail("adts-crc-fields", "an ADTS header with CRC has header length 9 and payload length frame_length - 9", map[string]interface{}{"case": x, "got": fmt.Sprintf("%+v off=%d", *got, off)})
+			}
+			n++
+		}
+		c.Evals.Add(n)
+		c.DistinctN.Add(n)
+		c.Add("adts_crc_header_cases", n)
+	})
+	distinct += int64(len(tf)) * 8 * 8183
+
 	// --- ADTS header axis: complete
 	type aj struct {
 		fi int
@@ -401,6 +424,8 @@ func replayC18(c *vf.Ctx, detail json.RawMessage) {
 	switch d.Case.Kind {
 	case "asc":
 		c18CheckASC(c, d.Case)
+	case "adts-crc":
+		runC18(c) // the CRC axis is cheap: re-run the check
 	case "adts":
 		j, _ := hexDecode(d.Case.Junk)
 		c18CheckADTS(c, d.Case.Freq, d.Case.Ch, d.Case.PL, j)
